@@ -29,11 +29,17 @@ Everywhere(o) == \A x \in Range(o.others) : x.t # Never /\ x.t <= o.t_owner + Bu
 \* no node runs ahead of the responsible one by more than the sampling allows (sanity of the observation)
 NotBefore(o) == \A x \in Range(o.others) : x.t = Never \/ x.t + Budget >= o.t_owner
 
+\* "an instance whose heartbeats keep arriving within the time-out is never marked unhealthy or removed": instance B is
+\* registered over HTTP and beats (PUT /instance/beat through changing nodes) until the sampling ends; every node must have
+\* it soon after the registration and must never report it unhealthy or missing afterwards
+NeverWhileBeating(o) == \A x \in Range(o.nodes) : x.t_seen # Never /\ x.t_seen <= o.registered_at_ms + Budget /\ x.t_bad = Never
+
 Init == phase = "start"
 Next == phase = "start" /\ phase' = "done"
 Spec == Init /\ [][Next]_phase
 Chk == phase = "done" =>
     \A i \in 1..Len(Obs) :
+      IF Obs[i].kind = "beating" THEN NeverWhileBeating(Obs[i]) \/ PrintT(<<"REQ-FAILED", "NeverWhileBeating", i>>) ELSE
         /\ OwnerNotEarly(Obs[i]) \/ PrintT(<<"REQ-FAILED", "OwnerNotEarly", i>>)
         /\ OwnerInTime(Obs[i]) \/ PrintT(<<"REQ-FAILED", "OwnerInTime", i>>)
         /\ Everywhere(Obs[i]) \/ PrintT(<<"REQ-FAILED", "Everywhere", i>>)
